@@ -114,7 +114,10 @@ class PathCtx:
         self.sync([cond])
         if self.pos < len(self.trace):
             v = self.trace[self.pos]
+            if v in ('TU', 'FU'):
+                self.unknown_forks += 1      # this prefix was entered through an `unknown` feasibility answer
         else:
+            u0 = self.unknown_forks
             t = self.feasible(cond)
             f = self.feasible(z3.Not(cond))
             if not t and not f:
@@ -123,9 +126,11 @@ class PathCtx:
                     raise Infeasible()
                 raise HarnessError('path condition became infeasible at %s' % cond)
             v = True if (t and f) else ('T' if t else 'F')
+            if v is True and self.unknown_forks > u0:
+                v = 'TU'
             self.trace.append(v)
         self.pos += 1
-        b = v in (True, 'T')
+        b = v in (True, 'T', 'TU')
         c = cond if b else z3.Not(cond)
         self.pathcond.append(c)
         self.solver.add(c)
@@ -980,6 +985,8 @@ def _dfs(fn, start, max_paths, deadline, collect):
         for i in range(len(tr), len(c.trace)):
             if c.trace[i] is True:
                 stack.append(c.trace[:i] + [False])
+            elif c.trace[i] == 'TU':
+                stack.append(c.trace[:i] + ['FU'])
         for ob in c.obligations:
             ob.pop('__keep__', None)
             if ob.get('model'):
@@ -1032,6 +1039,8 @@ def explore(fn, workers=1, max_paths=None, wall_s=None, collect=default_collect,
         for i in range(len(tr), len(c.trace)):
             if c.trace[i] is True:
                 stack.append(c.trace[:i] + [False])
+            elif c.trace[i] == 'TU':
+                stack.append(c.trace[:i] + ['FU'])
         for ob in c.obligations:
             if ob.get('model'):
                 ob['model'].pop('__z3model__', None)
